@@ -24,7 +24,9 @@ part `fluct`       real RNG, very short records (N = 1..4), K = 2^16/N repeated 
 
 Reference model (boring): out.signal = g*in.signal in rows present, 0 in y for 1-pol input;
 out.noise(answer) = g*in.noise (same rows) + L(answer), L = sqrt(P/4) x (an isometry of R^(4N));
-g = sqrt(10^(G/10)), P = 10^(NF/10) * h * (c/wavelength) * (10^(G/10) - 1) * fs.
+g = sqrt(10^(G/10)), P = 10^(NF/10) * h * f0 * (10^(G/10) - 1) * fs, f0 = gv.f0 IN FORCE at the call: c/wavelength when the
+carrier was configured through gv(wavelength=...) / gv.clean(), the value given when gv.f0 was set on its own (keyword
+`gv(..., f0=...)`, assignment `gv.f0 = ...`), whatever a later gv(...) call left there (read by the harness right before the call).
 """
 from __future__ import annotations
 import functools
@@ -224,6 +226,31 @@ def gain(G):
 
 
 # ------------------------------------------------------------------ calling the real thing
+def apply_gv(spec, clean=True):
+    """configure gv through ONE spelling of the grid alphabet.  spec = ((key, value), ...):
+      plain keys      keywords of one `gv(...)` call (made after `gv.clean()` if `clean`; no call when there is none).  Keywords that
+                      are no parameters of gv() (`f0=...`) are documented to become attributes ("Additional attributes to set");
+      '=name' keys    plain attribute assignments `gv.name = value` made after that call, in the order given;
+      ('then', spec2) a further configuration made afterwards WITHOUT gv.clean() (a later gv(...) call may overwrite what the
+                      first one set: the reference reads gv.fs / gv.f0 after everything, right before the EDFA call)."""
+    import warnings
+    from opticomlib.typing import gv
+    if clean:
+        gv.clean()
+    kw = {k: v for k, v in spec if k != 'then' and not k.startswith('=')}
+    if kw:
+        with warnings.catch_warnings():
+            warnings.simplefilter('ignore')
+            gv(**kw)
+    for k, v in spec:
+        if k.startswith('='):
+            setattr(gv, k[1:], v)
+    for k, v in spec:
+        if k == 'then':
+            apply_gv(v, clean=False)
+    return gv
+
+
 def set_grid(wl, fs, opts=()):
     """configure gv for a case; returns (fs, f0) of the reference: own values for the plain form, gv's attributes
     (read before the EDFA call) when the grid is configured through another documented spelling"""
@@ -231,7 +258,7 @@ def set_grid(wl, fs, opts=()):
     if spec is None:
         gv_reset(fs=fs, wavelength=wl)
         return fs, C0 / wl
-    gv = gv_reset(**dict(spec))
+    gv = apply_gv(spec)
     return float(gv.fs), float(gv.f0)
 
 
@@ -568,13 +595,7 @@ def case_sequence(case):
     viol, obs = [], []
     for i, (spec, clean, G, NF, bwf, feed) in enumerate(steps):
         if spec is not None:
-            if clean:
-                gv_reset(**dict(spec))
-            else:
-                import warnings
-                with warnings.catch_warnings():
-                    warnings.simplefilter('ignore')
-                    gv(**dict(spec))
+            apply_gv(spec, clean)
         fs_, f0_ = float(gv.fs), float(gv.f0)
         if frozen:
             for a in (x.signal, x.noise):
@@ -892,6 +913,29 @@ def case_fluct(case):
 UP = float(np.nextafter(1.0, 0.0))      # the double just below 1
 
 
+def carrier_spellings(quick):
+    """every way the carrier frequency IN FORCE (gv.f0 at the moment of the EDFA call) can come about OTHER than gv(wavelength=...)
+    / gv.clean() (those are in the axis already): f0 as a keyword of gv() (documented: extra keywords become attributes; the unchanged
+    gv() applies them after f0 = c/wavelength, so the keyword wins), plain attribute assignment, either one next to a wavelength that
+    says something else, gv.wavelength assigned on its own (gv.f0 stays), and f0 set first with a later gv(...) call that reconfigures
+    the rates (the unchanged gv() then puts f0 back to c/wavelength of THAT call).  The statement's power is NF*h*f0*(G-1)*fs over
+    'all gv.f0': the reference takes gv.f0 as the harness reads it right before the call (`set_grid`), whatever its history.
+    Values: the O-band and L-band edges c/1310 nm, c/1625 nm, and 187 THz given directly (float and int)."""
+    sp = [(('fs', 16e9), ('f0', C0 / 1310e-9)),                                       # gv(fs=..., f0=...)
+          (('fs', 16e9), ('=f0', C0 / 1625e-9)),                                      # gv(fs=...); gv.f0 = ...
+          (('=f0', 187000000000000),),                                                # gv.clean(); gv.f0 = 187 THz (an int)
+          (('fs', 16e9), ('wavelength', 1310e-9), ('f0', C0 / 1625e-9)),              # keyword f0 next to another wavelength
+          (('fs', 16e9), ('=wavelength', 1310e-9)),                                   # gv.wavelength = ... alone: gv.f0 unchanged
+          (('fs', 16e9), ('f0', 187e12), ('then', (('sps', 8), ('R', 2e9)))),         # f0 set, then the rates reconfigured
+          (('sps', 16), ('R', 1e9), ('then', (('=f0', 187e12), ('=wavelength', 1310e-9))))]   # both assigned, inconsistently
+    if not quick:
+        sp += [(('sps', 16), ('R', 1e9), ('f0', 187e12)),                             # keyword f0 with (sps, R)
+               (('sps', 8), ('R', 2e9), ('then', (('f0', C0 / 1310e-9),))),           # a second call gv(f0=...) alone (rates kept)
+               (('fs', 160e9), ('wavelength', 1625e-9), ('=f0', C0 / 1310e-9)),       # assignment after a wavelength was configured
+               (('fs', 16e9), ('=f0', 187e12), ('then', (('fs', 16e9), ('wavelength', 1310e-9))))]   # assigned, then gv(wavelength=...)
+    return sp
+
+
 def lattice_axes(quick):
     """name -> members that DEVIATE from the base point (N=16, 1pol, complex noise, G=3 (int), NF=3 (int), gv(fs=16e9) at 1550 nm,
     no BW, scale 1, positional call, writable ndarray-built input).  Simplest first."""
@@ -917,6 +961,7 @@ def lattice_axes(quick):
                 (('fs', 16e9), ('wavelength', 850e-9)), (('sps', 16), ('R', 1e9), ('wavelength', 1625e-9), ('N', 64)),
                 (('fs', 16e9), ('N', 128)), (('sps', 4), ('R', 10e9), ('wavelength', 1310e-9)), (('fs', 16000000000),),
                 (('sps', 16), ('R', 1e9), ('wavelength', 1550e-9), ('G', 20), ('NF', 5), ('BW', 50e9))]
+    ax['gv'] += carrier_spellings(quick)
     # optical bandwidth from very narrow to one ulp below fs (low-pass equivalent cut-off BW/2 < Nyquist), every scalar spelling
     ax['BW'] = [0.2, 0.6, 0.001, 0.01, 0.05, 0.5, 0.9, 0.99, UP, ('int', 0.2), ('np.int64', 0.6), ('np.float64', 0.2), ('np.float32', 0.25)]
     ax['scale'] = [1e-12, 1e-9, 1e-6, 1e6, 'dc']
@@ -959,7 +1004,9 @@ def lattice_cases(quick, seed, k=2):
 def sequence_cases(quick, seed):
     """call sequences on ONE shared input object"""
     S = [(('fs', 16e9),), (('fs', 16e9), ('wavelength', 1310e-9)), (('fs', 160e9), ('wavelength', 1550e-9)),
-         (('sps', 8), ('R', 2.5e9), ('wavelength', 850e-9)), (('sps', 16), ('R', 1e9), ('N', 32)), (('R', 3e9), ('fs', 40e9), ('wavelength', 1625e-9))]
+         (('sps', 8), ('R', 2.5e9), ('wavelength', 850e-9)), (('sps', 16), ('R', 1e9), ('N', 32)), (('R', 3e9), ('fs', 40e9), ('wavelength', 1625e-9)),
+         # the carrier set on its own (keyword / assignment; the latter also WITHOUT any gv() call: on the ambient grid of the step before)
+         (('fs', 16e9), ('f0', C0 / 1310e-9)), (('=f0', 187e12),)]
     inputs = [(16, '1pol', 'complex'), (16, '2pol-empty-y', 'complex'), (2, '2pol', 'complex')] + ([] if quick else [(16, '1pol', 'absent'), (17, '2pol', 'int')])
     out = []
     # grid switches g1, g2, g1 (every ordered pair, incl. g1 = g2: the plain repeated call), reconfigured with and without gv.clean()
@@ -1005,13 +1052,14 @@ def run(ctx):
              f'x RNG answer{ANSWERS} (unit cases execute all four unit rows, the seeded case executes +a and -a); simplest first; '
              f'lattice: every configuration with <= 2 deviations from {LATTICE_BASE} over the extended alphabets '
              + '; '.join(f'{n}{v}' for n, v in ax.items()) + f' x RNG answer{ANSWERS} (scale x integer/float16 samples left out); '
-             f'sequence: one shared input object, grid switches g1,g2,g1 over all ordered pairs of 6 grid spellings (reconfigured with/without gv.clean()), '
+             f'sequence: one shared input object, grid switches g1,g2,g1 over all ordered pairs of 8 grid spellings incl. gv(f0=...) and gv.f0 = ... (reconfigured with/without gv.clean()), '
              f'sweeps of G / NF / BW and 5-stage EDFA chains, writable and write-protected, every step decided by the complete scripted oracle; '
              f'ase-basis: all 4N impulse answers for N=8 (and N=1,2,3) over layout x noise{{absent,complex}} x G x NF x gv; non-optical: {len(BAD_KINDS)} input classes x BW x (G,NF) x call form; '
              f'conformance: numpy global RNG reseeded with {conf_seeds}, {confN} samples, six-sigma bands; '
              f'fluct: real RNG, N in 1..4 (thorough ..16), ceil({confN}/N) successive calls on one shared input, six-sigma bands')
     ctx.assume('numpy.random.randn returns i.i.d. standard normal deviates (trusted; bound to the scripted seam by the conformance part)')
-    ctx.assume('BPF (devices.BPF) is the optical filter meant by the statement (its own properties are C11); gv.f0 = c/wavelength (C14)')
+    ctx.assume('BPF (devices.BPF) is the optical filter meant by the statement (its own properties are C11); f0 of the statement is gv.f0 as it is '
+               'right before the call (= c/wavelength after gv(wavelength=...) / gv.clean(), C14; the value given when gv.f0 was set on its own)')
     ctx.assume('the RNG seam: EDFA draws its ASE through exactly one numpy.random.randn(4, N) request (any other request is reported as rng:request-log)')
     ctx.assume('a G / NF scalar or a sample array of less than double precision (float16, float32, complex64) may be processed in its own precision: '
                'the rounding tolerances scale with that eps')
